@@ -44,7 +44,7 @@ def main(chk):
 
 MANIFEST = {
     'category': 'proof',
-    'technique': 'Coq: per format the recursion counter of the decode-into-interface{} model and of the skip/raw walker model is bounded by MaxDepth for every byte list, option vector and fuel (assembled by exact from the wire-layer lemmas), nesting to MaxDepth or beyond is an error; a model of the typed path (destination types as trees) with its own bound and an exact refusal criterion (limited vs unlimited reader, induction on the fuel with the entry depth generalised); vm_compute correspondence of the wire models on nested inputs around MaxDepth; API-level oracle on all five formats, sixteen paths, every nesting unit, with 10^6-level inputs, 6*10^6-unit runs of non-nesting tags, sentinel-length heads and 3*10^6-element inputs without nesting in 64 MB-stack subprocesses',
-    'text': 'PARTIAL. Proved (unbounded in input, options, fuel): C14_cbor/msgpack/simple/binc/json_bound (model recursion frames <= MaxDepth on the interface{} path and in the skip walker; json: for every leaf implementation, the skip scanner is one loop), C14_cbor/msgpack/simple/binc/json_error (FULL for all five formats: for every input, option vector and fuel the decode-into-interface{} model never returns a value nested MaxDepth levels or more; depth counts arrays, maps and the cbor tags the decoder keeps, skipped tags cost nothing), C14_json_refuse (a container met with MaxDepth-1 open is the depth error), C14_cbor_error_partial / C14_simple_error_partial (older statements over nest families / encoder outputs that also name the error class), C14_typed_bound (typed path: frames <= 2*MaxDepth + static pointer/struct nesting of the destination type), C14_typed_error (FULL: for every type environment, destination type, MaxDepth, driver answer stream and fuel the typed model never returns Ok when the stream nests MaxDepth levels or more; the measure nesting (C14/TypedFull.v) is the largest number of levels open at once when the grammar of the destination type reads the stream with no limit, a level being opened where the code calls depthIncr: non-nil container heads and tags/extensions under interface{}), C14_typed_refuse (what is returned is the depth error), C14_typed_accept (exact boundary: below MaxDepth levels the depth checks never fire and the result is that of the unlimited reader), C14_typed_error_partial (the older one-family statement). What the model decides is the recursion DEPTH; bytes of stack per frame, stack growth and the fatal exit are runtime and only observed by the harness (64 MB stack cap, 10^6..3*10^6 levels on every path incl. io.Reader, typed destinations, Raw, unknown fields, extension values). json: the wire model Wire/Json.v (tied by the check Wjson) carries the theorems; its skip walker is iterative and enforces no depth (exempted in the oracle).',
+    'technique': 'Coq: per format the recursion counter of the decode-into-interface{} model and of the skip/raw walker model is bounded by MaxDepth for every byte list, option vector and fuel (assembled by exact from the wire-layer lemmas), nesting to MaxDepth or beyond is an error; a model of the typed path (destination types as trees) with its own bound and an exact refusal criterion (limited vs unlimited reader, induction on the fuel with the entry depth generalised); vm_compute correspondence of the wire models on nested inputs around MaxDepth; API-level oracle on all five formats, sixteen paths, every nesting unit, with 10^6-level inputs, 6*10^6-unit runs of non-nesting tags, sentinel-length heads, 3*10^6-element inputs without nesting, and ill-formed nesting units (indefinite / tag / container heads in chunk position, break bytes where values belong; stream ill, 10^6 units, 16 MB stack cap) in stack-capped subprocesses',
+    'text': 'PARTIAL. Proved (unbounded in input, options, fuel): C14_cbor/msgpack/simple/binc/json_bound (model recursion frames <= MaxDepth on the interface{} path and in the skip walker; json: for every leaf implementation, the skip scanner is one loop), C14_cbor/msgpack/simple/binc/json_error (FULL for all five formats: for every input, option vector and fuel the decode-into-interface{} model never returns a value nested MaxDepth levels or more; depth counts arrays, maps and the cbor tags the decoder keeps, skipped tags cost nothing), C14_json_refuse (a container met with MaxDepth-1 open is the depth error), C14_cbor_chunk_heads_error (two or more indefinite-length string heads in a row are an invalid descriptor in both cbor parsers, with no walker recursion frame), C14_cbor_error_partial / C14_simple_error_partial (older statements over nest families / encoder outputs that also name the error class), C14_typed_bound (typed path: frames <= 2*MaxDepth + static pointer/struct nesting of the destination type), C14_typed_error (FULL: for every type environment, destination type, MaxDepth, driver answer stream and fuel the typed model never returns Ok when the stream nests MaxDepth levels or more; the measure nesting (C14/TypedFull.v) is the largest number of levels open at once when the grammar of the destination type reads the stream with no limit, a level being opened where the code calls depthIncr: non-nil container heads and tags/extensions under interface{}), C14_typed_refuse (what is returned is the depth error), C14_typed_accept (exact boundary: below MaxDepth levels the depth checks never fire and the result is that of the unlimited reader), C14_typed_error_partial (the older one-family statement). What the model decides is the recursion DEPTH; bytes of stack per frame, stack growth and the fatal exit are runtime and only observed by the harness (64 MB stack cap, 10^6..3*10^6 levels on every path incl. io.Reader, typed destinations, Raw, unknown fields, extension values). json: the wire model Wire/Json.v (tied by the check Wjson) carries the theorems; its skip walker is iterative and enforces no depth (exempted in the oracle).',
     'note': 'Findings made by this check and repaired in /repo: F14-4 (cbor tag bound to an InterfaceExt recursed without depth accounting), F14-5 (SelfExt payloads decoded by side decoders that restarted the depth count). The boundary is depth == MaxDepth => error (MaxDepth=1 admits no container). Trusted: Coq kernel, the hand-written wire and typed models, the harness.',
 }
